@@ -44,6 +44,7 @@ def run_witness(unit, seed=0, only=None):
         if not os.path.exists(path):
             raise R.Infra(f"{unit['name']}: witness target {tf} no longer exists")
         mod = "verif_witness_" + re.sub(r"\W", "_", unit["name"])
+        n_orig_lines = open(path).read().count("\n")
         with open(path, "a") as f:
             f.write(f"\n#[cfg(test)]\nmod {mod} {{\n    #![allow(unused_imports, dead_code, unused_variables)]\n    use super::*;\n{open(wpath).read()}\n}}\n")
         env = dict(os.environ)
@@ -56,9 +57,19 @@ def run_witness(unit, seed=0, only=None):
         except subprocess.TimeoutExpired:
             raise R.Infra(f"{unit['name']}: witness search timed out")
         out = p.stdout + "\n" + p.stderr
-        if "error: could not compile" in out or re.search(r"(?m)^error(\[E\d+\])?:", p.stderr):
+        # a panic of the REAL code during the search is a failing input (the search calls public entry points on well-formed inputs);
+        # a panic inside the appended witness module itself is a harness problem
+        panic = re.search(r"panicked at ([^\s:]+):(\d+):\d+:\n([^\n]*)", out)
+        stderr_wo_test_failed = re.sub(r"(?m)^error: test failed.*$", "", p.stderr)
+        if "error: could not compile" in out or re.search(r"(?m)^error(\[E\d+\])?:", stderr_wo_test_failed):
             raise R.Infra(f"{unit['name']}: witness module does not compile against the current tree:\n{p.stderr[-2500:]}")
         fails = []
+        if panic:
+            in_target = rel.endswith(panic.group(1).lstrip("./")) or panic.group(1).lstrip("./").endswith(rel)
+            if in_target and int(panic.group(2)) > n_orig_lines:
+                raise R.Infra(f"{unit['name']}: the witness module itself panicked at line {panic.group(2)}: {panic.group(3)}")
+            fails.append({"fn": unit.get("witness_fn") or os.path.basename(tf), "clause": "the real code returns (no panic) on the inputs of the bounded search",
+                          "panicked_at": f"{panic.group(1)}:{panic.group(2)}", "message": panic.group(3)})
         for line in out.split("\n"):
             # (the first line printed by a test shares its line with cargo's "test <name> ... " prefix)
             k = line.find("WITNESS-FAIL ")
@@ -78,6 +89,8 @@ def run_witness(unit, seed=0, only=None):
                     samples.append(json.loads(line[k + len("WITNESS-SAMPLE "):]))
                 except Exception:
                     samples.append({"raw": line[k + 15:][:400]})
+        if panic and cases == 0:
+            cases = 1
         if cases == 0 and not fails:
             raise R.Infra(f"{unit['name']}: witness search ran no case:\n{out[-1500:]}")
         return {"fails": fails, "cases": cases, "distinct": distinct, "samples": samples, "cmd": "(in scratch copy) " + " ".join(cmd)}
